@@ -72,7 +72,7 @@ def gen_api(rng):
         r = rng.random()
         if r < 0.93:                                    # assigned: right after creation / at some later date
             t = tcre[i] if rng.random() < 0.55 else max(tcre[i], late(0.8))
-            items.append((t, rng.choice([0.5, 2]), rng.random(), ("G", i)))
+            items.append((t, 2 if kinds[i] == 1 and i in has_pred else rng.choice([0.5, 2]), rng.random(), ("G", i)))
             if rng.random() < 0.04:
                 items.append((max(t, late(0.5)), 2, rng.random(), ("G", i)))
         if i not in has_pred or rng.random() < 0.5:
@@ -236,7 +236,7 @@ def gen_dax(rng):
     post.append(("X",))
     return {"mode": 2, "file": "\n".join(xml), "ops": post, "n": n, "durs": durs,
             "expect_named": {k: (v[0], sorted(v[1])) for k, v in exp.items()},
-            "sizes": {(("root" if prod is None else jn(prod)), fn): sz for (fn, sz, prod, cons) in files}}
+            "sizes": {fn: sz for (fn, sz, prod, cons) in files}}
 
 
 # ------------------------------------------------------------------------------------------------ running
@@ -373,16 +373,16 @@ def run(ctx):
                        "dates, plus scripts with a removed dependency, a duplicate/self/unknown edge (throws) or a cycle; the same "
                        "DAG family written to JSON and DAX files. non-trivial = at least one activity with a predecessor was started "
                        "by the implementation; distinct = distinct scripts/files")
-    dist = {"api": 0, "json": 0, "dax": 0, "with_comm_or_io": 0, "throws": 0, "truncated_unmodelled": 0, "late_assign": 0,
+    dist = {"api": 0, "json": 0, "dax": 0, "with_comm_or_io": 0, "throws": 0, "dropped_unmodelled_ops": 0, "late_assign": 0,
             "not_all_finished": 0, "activities": 0, "edges": 0}
 
     # API scripts: ask the model first, cut a script where it leaves the modelled domain (e.g. start() of a started activity)
     api = [c for c in cases if c["mode"] == 0]
-    ans = fw.run_model("c13", "run_c13", [enc_ops(c["ops"]) for c in api])
+    ans = fw.run_model("c13", "run_c13_skips", [enc_ops(c["ops"]) for c in api])
     for c, a in zip(api, ans):
-        if a[0] == 2:
-            c["ops"] = c["ops"][:a[1]]
-            dist["truncated_unmodelled"] += 1
+        for k in reversed(a):
+            del c["ops"][k]
+        dist["dropped_unmodelled_ops"] += len(a)
 
     tmpd = tempfile.mkdtemp(prefix="c13_", dir=os.environ.get("TMPDIR", "/tmp"))
     with ThreadPoolExecutor(max_workers=max(2, fw.NCPU // 2)) as ex:
@@ -442,7 +442,7 @@ def run(ctx):
                 if k == 0:
                     dur = 0 if nm in ("root", "end") else c["durs"][i] * (1 << TICK)
                 else:
-                    sz = c["sizes"][(exp[nm][1][0], nm.split("_")[1])]
+                    sz = c["sizes"][nm.split("_")[1]]
                     dur = sz * (1 << TICK) // SP
                 pre.append(("C", k, dur))
             for nm, (k, ps) in exp.items():
@@ -482,6 +482,24 @@ def run(ctx):
                     events.append(("O", e[1] + npre, e[2]))
                 elif e[0] != "D":
                     events.append(e)
+        # signals carrying the same date between two script operations form a set: completions first
+        canon, blk = [], []
+        def flush():
+            i = 0
+            while i < len(blk):
+                j = i
+                while j < len(blk) and blk[j][2] == blk[i][2]:
+                    j += 1
+                canon.extend(sorted(blk[i:j], key=lambda e: 0 if e[0] == "F" else 1))
+                i = j
+            blk.clear()
+        for e in events:
+            if e[0] == "O":
+                flush(); canon.append(e)
+            else:
+                blk.append(e)
+        flush()
+        events = canon
         # loader-phase signals were printed before the D lines: they belong after the loader's operations — already the case
         dates = [e[2] for e in events] + [clock]
         scale = TICK
@@ -493,6 +511,7 @@ def run(ctx):
         model_in.append(enc_ops(script))
         oracle_in.append(words)
 
+    fw.log("  harness runs done at %.1fs" % (__import__("time").time() - ctx.t0))
     model = fw.run_model("c13", "run_c13", model_in)
     verdicts = fw.run_model("c13", "run_c13_oracle", oracle_in)
 
@@ -569,7 +588,7 @@ def run(ctx):
         "every activity has dedicated resources (own host / link / disk), so its duration is amount/speed and independent of the others; "
         "resource sharing is C15-C21's subject",
         "nothing fails or is cancelled (C10 covers failures); start() is only called on INITED/STARTING activities and a predecessor "
-        "is only added to a not yet started activity (scripts leaving this domain are cut there, counted as truncated_unmodelled)",
+        "is only added to a not yet started activity (scripts leaving this domain are cut there, the offending operation is dropped, counted as dropped_unmodelled_ops)",
         "the JSON and DAX parsers are glue: tied by comparing the structure they build (kinds, predecessor sets) and the resulting "
         "run with the script the file denotes; no theorem about parsing. DOT is not built in (HAVE_GRAPHVIZ 0)",
         "Comm::do_start fires on_start twice for host-to-host comms; two identical consecutive signals count as one start"]
